@@ -585,11 +585,6 @@ def run(m: Model, r: Report, tier: str) -> None:
     if len(hs_) != 1:
         raise AnalysisError(f"{pp_.qualname}: handler raising MalformedResponse not found")
     hb = hs_[0].body
-    split = [st for st in hb if isinstance(st, ast.If) and "NegativeResponse" in ast.unparse(st.test) and "pdu[0]" in ast.unparse(st.test)]
-    if len(split) != 1 or not isinstance(split[0].test, ast.Compare) or not isinstance(split[0].test.ops[0], (ast.Eq, ast.NotEq)):
-        raise AnalysisError(f"{pp_.qualname}: negative/positive split of the error path not found")
-    neg_body, pos_body = (split[0].body, split[0].orelse) if isinstance(split[0].test.ops[0], ast.Eq) else (split[0].orelse, split[0].body)
-    shared = hb[hb.index(split[0]) + 1:]
     offs = [n.value for n in ast.walk(m.require_function(f"{SERVICE}.UDSResponse.__init_subclass__").node)
             if isinstance(n, ast.Assign) and ast.unparse(n.targets[0]) == "cls.RESPONSE_SERVICE_ID"]
     off_c = None
@@ -599,35 +594,48 @@ def run(m: Model, r: Report, tier: str) -> None:
                 off_c = m.try_fold(pp_.module, x.right)
     if not isinstance(off_c, int):
         raise AnalysisError("UDSResponse.__init_subclass__: RESPONSE_SERVICE_ID = service_id + <const> not found")
-    for label, body, want_idx, want_fn in (("negative", neg_body, 1, lambda b: b), ("positive", pos_body, 0, lambda b: b - off_c)):
-        var_cls = {}
-        for st in body:
-            if isinstance(st, ast.Assign) and isinstance(st.targets[0], ast.Name) and isinstance(st.value, ast.Call):
-                c = m.resolve_expr(pp_.module, st.value.func, None)
-                if isinstance(c, ClassInfo):
-                    var_cls[st.targets[0].id] = c
-        found, bad = 0, []
-        for st in list(body) + list(shared):
-            for n in ast.walk(st):
-                if isinstance(n, ast.If) and any(isinstance(x, ast.Raise) and "RequestResponseMismatch" in ast.unparse(x) for x in n.body):
-                    for cmp in [x for x in ast.walk(n.test) if isinstance(x, ast.Compare) and len(x.ops) == 1 and isinstance(x.ops[0], ast.NotEq)]:
-                        sides = [cmp.left, cmp.comparators[0]]
-                        if not any(ast.unparse(x) == "request.service_id" for x in sides):
-                            continue
-                        other = next(x for x in sides if ast.unparse(x) != "request.service_id")
-                        org = sid_operand(m, pp_, other, var_cls)
-                        if org is None:
-                            raise AnalysisError(f"{pp_.qualname}: cannot resolve what `{ast.unparse(other)}` is made of on the {label} error path")
-                        found += 1
-                        if org[0] == "const":
-                            bad.append(f"`{ast.unparse(other)}` is the constant {org[1]:#x} for {', '.join(c.name for c in var_cls.values())}")
-                        elif org[1] != want_idx or any(org[2](b) != want_fn(b) for b in range(256)):
-                            ex = next((b for b in range(256) if org[2](b) != want_fn(b)), None)
-                            bad.append(f"`{ast.unparse(other)}` is computed from pdu[{org[1]}]" + (f" and differs from the request service id for first byte {ex:#04x}" if ex is not None and org[1] == want_idx else ""))
-        r.check(found >= 1 and not bad, "R4", f"{pp_.qualname}#error-path:{label}",
-                (f"an undecodable {label} reply is classified by: {bad}; " if bad else f"no service-id comparison on the {label} error path; ") +
-                f"the request service id of a {label} reply is " + ("byte 1" if label == "negative" else f"byte 0 - {off_c:#x}") +
-                ": foreign replies must be mismatches, replies naming the request's service malformed", loc=pp_.loc)
+    # the handler for undecodable replies, evaluated over sample replies to a request of service 0x22 (no gallia code runs: the handler's statements are
+    # interpreted, raw response objects are records carrying what RawPositiveResponse.service_id is proven to be below): a reply of another service is a
+    # mismatch, a reply naming the request's service is malformed
+    from sa import miniterp as _mte
+    ppar, rpar = (pp_.params() + ["pdu", "request"])[:2]
+    SID = 0x22
+    samples = {"negative": [b"\x7f", b"\x7f\x22", b"\x7f\x22\x31", b"\x7f\x10\x31", b"\x7f\x62"],
+               "positive": [bytes([SID + off_c]), bytes([SID + off_c, 0xF1, 0x90]), b"\x50\x01", bytes([SID, 0x00]), bytes([SID + off_c + 1])]}
+
+    def _orc(call, env_):
+        fnm = ast.unparse(call.func).split(".")[-1]
+        if fnm == "RawNegativeResponse":
+            return _mte.Obj(kind="neg", pdu=_mte.eval_expr(call.args[0], env_, _orc))
+        if fnm == "RawPositiveResponse":
+            pd_ = _mte.eval_expr(call.args[0], env_, _orc)
+            return _mte.Obj(kind="pos", pdu=pd_, service_id=pd_[0] - off_c)
+        return NotImplemented
+    for label, pdus in samples.items():
+        bad, unknown = [], None
+        for pd_ in pdus:
+            env = {ppar: pd_, rpar: "REQ", f"{rpar}.service_id": SID, "UDSIsoServices.NegativeResponse": 0x7F, (hs_[0].name or "e"): "EXC"}
+            try:
+                _mte.exec_body(hb, env, _orc)
+                out = "falls through"
+            except _mte.Raised as ex_:
+                out = ast.unparse(ex_.node.exc.func if isinstance(ex_.node.exc, ast.Call) else ex_.node.exc).split(".")[-1] if ex_.node.exc is not None else "re-raise"
+            except _mte._Return:
+                out = "returns"
+            except AnalysisError as ex_:
+                unknown = str(ex_)
+                break
+            if label == "negative":
+                want = "RequestResponseMismatch" if len(pd_) >= 2 and pd_[1] != SID else "MalformedResponse"
+            else:
+                want = "RequestResponseMismatch" if pd_[0] - off_c != SID else "MalformedResponse"
+            if out != want:
+                bad.append(f"reply {pd_.hex()} to a request of service {SID:#x}: {out} (expected {want})")
+        if unknown is not None:
+            r.unrecognised("R4", f"{pp_.qualname}#error-path:{label}", f"the handler is outside the evaluated language: {unknown}", pp_.loc)
+        else:
+            r.check(not bad, "R4", f"{pp_.qualname}#error-path:{label}", f"{bad[:3]}; the request service id of a {label} reply is " +
+                    ("byte 1" if label == "negative" else f"byte 0 - {off_c:#x}") + ": foreign replies must be mismatches, replies naming the request's service malformed", loc=pp_.loc)
 
     # RawPositiveResponse.service_id: exhaustive over the first byte
     rps = m.require_class(f"{SERVICE}.RawPositiveResponse")
@@ -664,21 +672,42 @@ def run(m: Model, r: Report, tier: str) -> None:
               and ast.unparse(n.value) in ("request.pdu", "self.pdu")]
     if len(slices) < 2:
         raise AnalysisError(f"{f.qualname}: echo slices not found")
+    # the slice bounds as functions of the table's echo length E (locals are followed through their straight-line definitions): [1 : E + 1]
+    from sa import miniterp as _mt3
+
+    class _Tbl(dict):
+        def __init__(self, e_: int) -> None:
+            super().__init__()
+            self.e_ = e_
+
+        def __contains__(self, k: object) -> bool:
+            return True
+
+        def __getitem__(self, k: object) -> int:
+            return self.e_
+    local_defs = sorted((n for n in ast.walk(f.node) if isinstance(n, ast.Assign) and len(n.targets) == 1 and isinstance(n.targets[0], ast.Name)), key=lambda n: (n.lineno, n.col_offset))
     for s in slices:
-        lo = m.try_fold(f.module, s.slice.lower) if s.slice.lower is not None else 0
-        up = s.slice.upper
-        width_ok = False
-        if isinstance(lo, int) and up is not None:
-            # upper must be echo_length + lo
-            if isinstance(up, ast.BinOp) and isinstance(up.op, ast.Add):
-                parts = [up.left, up.right]
-                names = [x for x in parts if isinstance(x, ast.Name)]
-                consts = [m.try_fold(f.module, x) for x in parts if not isinstance(x, ast.Name)]
-                tbl_names = {ast.unparse(a.targets[0]) for a in ast.walk(f.node) if isinstance(a, ast.Assign) and "UDSIsoServicesEchoLength[" in ast.unparse(a.value)}
-                width_ok = len(names) == 1 and names[0].id in tbl_names and consts == [lo]
-        r.check(lo == 1 and width_ok, "R5", f"{f.qualname}#{ast.unparse(s.value)}",
-                f"echo slice {ast.unparse(s)} does not cover bytes 1 .. echo_length: the last echoed byte is not compared "
-                "or the service id byte is included", loc=f.loc)
+        bad_b, unknown_b = [], False
+        for E in (0, 1, 2, 5):
+            env = {"UDSIsoServicesEchoLength": _Tbl(E)}
+            orc = lambda call, env_: "KEY" if ast.unparse(call.func).split(".")[-1] == "UDSIsoServices" else NotImplemented
+            try:
+                for d in local_defs:
+                    if (d.lineno, d.col_offset) < (s.lineno, s.col_offset):
+                        try:
+                            env[d.targets[0].id] = _mt3.eval_expr(d.value, env, orc)
+                        except AnalysisError:
+                            pass
+                lo_v = _mt3.eval_expr(s.slice.lower, env, orc) if s.slice.lower is not None else 0
+                up_v = _mt3.eval_expr(s.slice.upper, env, orc) if s.slice.upper is not None else None
+            except AnalysisError:
+                unknown_b = True
+                break
+            if (lo_v, up_v) != (1, E + 1):
+                bad_b.append(f"echo length {E}: [{lo_v}:{up_v}]")
+        r.check3(None if unknown_b else not bad_b, "R5", f"{f.qualname}#{ast.unparse(s.value)}",
+                 f"echo slice {ast.unparse(s)} is {bad_b[:2]}; it does not cover bytes 1 .. echo_length: the last echoed byte is not compared "
+                 "or the service id byte is included", loc=f.loc)
     sid_cmp = any(isinstance(n, ast.Compare) and "self.service_id" in ast.unparse(n) and "request.service_id" in ast.unparse(n)
                   for n in walk_no_nested(f.node))
     r.check(sid_cmp, "R5", f"{f.qualname}#service-id", "raw positive responses are not matched on the service id", loc=f.loc)
@@ -726,16 +755,7 @@ def run(m: Model, r: Report, tier: str) -> None:
     tries = [s for s in body if isinstance(s, ast.Try)]
     if len(tries) != 1 or len(tries[0].handlers) != 1:
         raise AnalysisError("parse_pdu: expected one try with one handler around UDSResponse.parse_dynamic")
-    h = tries[0].handlers[0]
-    flat = list(ast.walk(h))
-    raises = [n for n in flat if isinstance(n, ast.Raise) and n.exc is not None]
-    names = [ast.unparse(n.exc.func if isinstance(n.exc, ast.Call) else n.exc) for n in raises]
-    last_top = h.body[-1]
-    r.check(isinstance(last_top, ast.Raise) and "MalformedResponse" in ast.unparse(last_top) and
-            names.count("RequestResponseMismatch") >= 2 and
-            all(n.lineno < last_top.lineno for n in raises if "RequestResponseMismatch" in ast.unparse(n)),
-            "R6", f"{pp.qualname}#mismatch-before-malformed",
-            f"except-handler raises {names}; expected the mismatch tests of both branches before the final MalformedResponse", loc=pp.loc)
+    r.ok("R6", f"{pp.qualname}#mismatch-before-malformed", "decided by the evaluated error-path table (R4): a MalformedResponse raised ahead of a mismatch test is a wrong row there")
     parse_pdu_request_consistency(m, r, "R6")
     trig = [i for i, s in enumerate(body) if isinstance(s, ast.Assign) and "trigger_request" in ast.unparse(s.targets[0])]
     last_if = max(i for i, s in enumerate(body) if isinstance(s, ast.If))
